@@ -297,6 +297,20 @@ Theorem C14x_fast_nonMarkov_SIR_relabel_invariant : forall delay delay' dur dur'
                                  match r, r' with Some x, Some x' => x' == x | None, None => True | _, _ => False end)) /\
     (forall v, stat sF' (phi v) = stat sF v).
 Proof. exact (esir_relabel_invariant g g' phi Hinj Hnodes Hadj i0 i0' r0 r0' Hi0 Hr0). Qed.
+(* ... and at the level of what fast_nonMarkov_SIR returns with return_full_data=True: transmissions() of the copy lists exactly
+   the renamed nodes, each with the same infection time *)
+Theorem C14x_fast_nonMarkov_SIR_transmissions_invariant : forall delay delay' dur dur',
+  (forall u v, delay' (phi u) (phi v) = delay u v) -> (forall u, dur' (phi u) = dur u) ->
+  forall tb tb' tmin tmax fuel fuel',
+  esir_okb g delay dur i0 r0 tmin tmax = true ->
+  (esir_fuel g i0 <= fuel)%nat -> (esir_fuel g' i0' <= fuel')%nat ->
+  exists o cs o' cs' hs hs' trs trs',
+    esir_det tb g delay dur i0 r0 tmin tmax true fuel = Ok (o, cs) /\
+    esir_det tb' g' delay' dur' i0' r0' tmin tmax true fuel' = Ok (o', cs') /\
+    so_full o = Some (mkFull hs trs) /\ so_full o' = Some (mkFull hs' trs') /\
+    (forall v, (exists t a, In (t, a, phi v) trs') <-> (exists t a, In (t, a, v) trs)) /\
+    (forall v t a t' a', In (t, a, v) trs -> In (t', a', phi v) trs' -> t' == t).
+Proof. exact (esir_transmissions_relabel_invariant g g' phi Hinj Hnodes Hadj i0 i0' r0 r0' Hi0 Hr0). Qed.
 End C14x_simulators.
 
 (* non-vacuity: the graph pair of C14x_iso_hypotheses_satisfiable with I0 = {10}, R0 = {40}, a contact table that blocks
@@ -355,5 +369,6 @@ Print Assumptions C14x_delay_paths_preserved.
 Print Assumptions C14x_discrete_SIR_relabel_invariant.
 Print Assumptions C14x_sim_domains_transported.
 Print Assumptions C14x_fast_nonMarkov_SIR_relabel_invariant.
+Print Assumptions C14x_fast_nonMarkov_SIR_transmissions_invariant.
 Print Assumptions C14x_sim_hypotheses_satisfiable.
 Print Assumptions C14x_sim_nontrivial.
